@@ -33,3 +33,65 @@ def _geo(pid, ctx, k_quick, k_thorough):
 def extra_C13(ctx): return _geo("C13", ctx, 60, 600)
 def extra_C14(ctx): return _geo("C14", ctx, 80, 800)
 def extra_C15(ctx): return _geo("C15", ctx, 30, 400)
+
+
+def extra_C16(ctx):
+    """the translator: regenerate the effect table from /repo's SSA and close table_ok by computation"""
+    import shutil, json
+    scratch, root, env = ctx["scratch"], ctx["root"], ctx["env"]
+    res = {"violations": []}
+    tdir = os.path.join(scratch, "effects")
+    shutil.copytree(os.path.join(root, "tools", "effects"), tdir)
+    r = subprocess.run(["go", "build", "-o", os.path.join(scratch, "effects.bin"), "."], cwd=tdir, env=env,
+                       stdout=subprocess.PIPE, stderr=subprocess.STDOUT, text=True)
+    gen = os.path.join(scratch, "gen")
+    os.makedirs(gen, exist_ok=True)
+    ok = r.returncode == 0
+    out = r.stdout
+    if ok:
+        with open(os.path.join(gen, "Effects.v"), "w") as f:
+            r = subprocess.run(["timeout", "300", os.path.join(scratch, "effects.bin"), "/repo"], env=env, stdout=f, stderr=subprocess.PIPE, text=True)
+        ok = r.returncode == 0
+        out = r.stderr
+    if not ok:
+        rp = os.path.join(root, "replays", "C16-translator.txt")
+        open(rp, "w").write("the effect-table translator could not process /repo's working tree:\n" + out[-3000:])
+        res["violations"].append((rp, " no-failing-input-found"))
+        return res
+    src = open(os.path.join(gen, "Effects.v")).read()
+    rows = re.findall(r'^\s*\("(.*?)", "(.*?)", "(.*?)", (\d+)\)', src, re.M)
+    bad = [x for x in rows if int(x[3]) > 1]
+    res["effect_table_rows"] = len(rows)
+    res["effect_table_nonlocal"] = len(bad)
+    m = re.search(r"functions_analysed : Z := (\d+)", src); res["functions_analysed"] = int(m.group(1)) if m else 0
+    m = re.search(r"entry_points : Z := (\d+)", src); res["entry_points"] = int(m.group(1)) if m else 0
+    with open(os.path.join(gen, "EffectsCheck.v"), "w") as f:
+        f.write("From Coq Require Import List ZArith String.\nFrom GJ Require Import Interleave.\nFrom GEN Require Import Effects.\n"
+                "Definition rows : list ((string * string * string) * Z) := effect_table.\n"
+                "Theorem no_shared_writes : table_ok rows = true.\nProof. vm_compute. reflexivity. Qed.\n"
+                "Theorem generated_code_schedule_irrelevant : forall ts sh sched,\n"
+                "  (forall t, In t ts -> forall i, In i (code t) -> In i (abstract_prog rows)) ->\n"
+                "  fst (run (sh, ts) sched) = sh /\\\n"
+                "  forall k t, nth_error ts k = Some t -> nth_error (snd (run (sh, ts) sched)) k = Some (solo sh t (count k sched)).\n"
+                "Proof. intros. apply (table_ok_interleaving rows); [exact no_shared_writes|assumption]. Qed.\n"
+                "Print Assumptions generated_code_schedule_irrelevant.\n")
+    coq = os.path.join(root, "coq")
+    r1 = subprocess.run(["timeout", "600", "coqc", "-Q", coq, "GJ", "-Q", gen, "GEN", os.path.join(gen, "Effects.v")], stdout=subprocess.PIPE, stderr=subprocess.STDOUT, text=True)
+    r2 = subprocess.run(["timeout", "600", "coqc", "-Q", coq, "GJ", "-Q", gen, "GEN", os.path.join(gen, "EffectsCheck.v")], stdout=subprocess.PIPE, stderr=subprocess.STDOUT, text=True)
+    res["generated_obligations"] = 2
+    res["generated_discharged"] = 2 if (r1.returncode == 0 and r2.returncode == 0) else 0
+    res["generated_theorems"] = ["no_shared_writes", "generated_code_schedule_irrelevant"]
+    res["generated_assumptions"] = re.sub(r"\s+", " ", r2.stdout)[-400:]
+    if r1.returncode != 0 or r2.returncode != 0:
+        rp = os.path.join(root, "replays", "C16-effects.txt")
+        with open(rp, "w") as f:
+            f.write("# property C16: the effect table regenerated from /repo's SSA has store-like instructions whose target is not\n"
+                    "# provably memory of the same call (class 3 global, 4 shared, 5 unknown): theorem no_shared_writes no longer holds.\n"
+                    "# A two-goroutine schedule calling the named function on one shared object is the failing history;\n"
+                    "# the race-detector stream of this check runs such schedules.\n")
+            for fn, pos, kind, cls in bad[:60]:
+                f.write("%s  %s  %s  class=%s\n" % (fn, pos, kind, cls))
+            if not bad:
+                f.write((r1.stdout + r2.stdout)[-2000:])
+        res["violations"].append((rp, "" if bad else " no-failing-input-found"))
+    return res
